@@ -5,7 +5,7 @@
 set -u
 cd "$(dirname "$0")/.."
 TIER="${1:-quick}"; shift || true
-IDS="$*"; [ -z "$IDS" ] && IDS=$(ls benign)
+IDS="$*"; [ -z "$IDS" ] && IDS=$(for d in benign/*/; do [ -e "$d/RETIRED" ] || basename "$d"; done)
 bad=0
 for id in $IDS; do
   out=$(tools/evalalt.sh "benign-$id" "$PWD/benign/$id/patch.diff" "$TIER" all 2>&1)
